@@ -523,8 +523,45 @@ func workC12(c *shardCtx) {
 				c.sample(map[string]interface{}{"expression": text, "scenario": sc.name, "threads": sc.nThr, "preemption_bound": bound, "schedules": ex.Execs, "solo_points": solos[0].points, "distinct_outcomes": len(ex.Outcomes)})
 			}
 		}
+		// the other documents: whether a call writes shared state can depend on the data (string keys vs number
+		// keys, already sorted or not). The solo write monitor of scenario S1 is run on every other document for
+		// the expressions that can reorder or hand back their input; by the reduction theorem a clean solo run
+		// decides all interleavings of that scenario.
+		if ei < curated || docSensitive(text) {
+			for dv := 1; dv < len(concDocs); dv++ {
+				sc := makeScenarios(text, 2, ei+dv)[0]
+				c.add("scenarios", 1)
+				c.add("other_document_scenarios", 1)
+				si := solo(&sc, 0)
+				c.add("solo_runs", 1)
+				c.add("monitor_points", int64(si.points))
+				if len(si.writes) > 0 {
+					w := si.writes[0]
+					site := w[:strings.Index(w, ": ")]
+					c.report(harness.Violation{Kind: "race", Signature: "unsynchronised-shared-write@" + site,
+						Input:    map[string]interface{}{"expression": text, "scenario": sc.name, "thread_body": 0, "document": concDocs[(ei+dv)%len(concDocs)]},
+						Expected: "a call only reads the compiled expression, package-level state and documents shared with other goroutines",
+						Observed: "a single call writes shared state without synchronisation (two concurrent calls race on it): " + strings.Join(si.writes, " | "), Site: site})
+					c.add("scenarios_with_shared_writes_or_sync", 1)
+				} else if si.locked == 0 && si.syncOps == 0 {
+					c.add("scenarios_decided_by_reduction", 1)
+				} else {
+					c.add("scenarios_with_shared_writes_or_sync", 1)
+				}
+			}
+		}
 	}
 	c.res.Notes["expression_universe"] = len(exprs)
+}
+
+// docSensitive: the expression calls a function that reorders, merges or may return its argument itself.
+func docSensitive(text string) bool {
+	for _, f := range []string{"sort", "reverse", "max_by", "min_by", "merge", "map(", "to_array", "not_null", "join", "values", "keys", "[::", "[]"} {
+		if strings.Contains(text, f) {
+			return true
+		}
+	}
+	return false
 }
 
 func finishC12(r *harness.Run, k map[string]int64, notes map[string]interface{}) harness.Coverage {
